@@ -17,8 +17,8 @@ namespace Tins.Wire.ChainAll
 open Tins Tins.Wire
 open Tins.Wire.L2 (layerView splitRaw stripView padOf ViewEq IsTail TailInner cxOf)
 
-/-- every layer is of a class `fix_all` covers, and no Dot1Q pads on behalf of `append_padding_` -/
-def CovAll (os : List AnyObj) : Prop := ∀ o ∈ os, FixCov o ∧ NoApp o
+/-- no Dot1Q pads on behalf of `append_padding_` (object state that is not on the wire: KF-C04-L2-4) -/
+def NoAppAll (os : List AnyObj) : Prop := ∀ o ∈ os, NoApp o
 
 /-- the re-parsed sub-stack `os'` of `os` (serialized as `out`, re-parsed with `k` zero bytes behind it): it shows its
     ancestors the same classes and EtherTypes, and under ancestors the writers cannot tell from the original ones (`ParentSim`)
@@ -40,7 +40,7 @@ theorem reFix_raw (ps : List LayerInfo) (p : Bytes) (k : Nat) : ReFix ps [.raw p
 
 /-- **one layer on top of a sub-stack whose second serialization is known** -/
 theorem chain_fix_layer (x : AnyObj) (os : List AnyObj) (ps : List LayerInfo) (region : Bytes)
-    (hok : LayerOK x os) (hcov : FixCov x) (hna : NoApp x) (hpay : (splitRaw (x :: os)).2 ≠ [])
+    (hok : LayerOK x os) (hna : NoApp x) (hpay : (splitRaw (x :: os)).2 ≠ [])
     (hlen : region.length = Wire.sizeOf (semsAux ps (x :: os) (infos (x :: os)))) (io : Bytes)
     (hio : serializeInto (semsAux (liOfA x os :: ps) os (infos os)) (innerOf (semOfA ps x os) region) = .ok io)
     (hiol : io.length = sizeOfStack os)
@@ -70,7 +70,7 @@ theorem chain_fix_layer (x : AnyObj) (os : List AnyObj) (ps : List LayerInfo) (r
       · exact .inl (by omega)
       · exact .inr ⟨by omega, by rw [h, hc, hc]⟩
   have hstep := fun (ps' : List LayerInfo) (hps : ParentSim ps ps') =>
-    fix_all ps ps' x os os'' hok hcov hna hpay (splice region x.hdr io) io (by rw [hsl]; omega) hin hiol hnil hraw hpos hnostp
+    fix_all ps ps' x os os'' hok hna hpay (splice region x.hdr io) io (by rw [hsl]; omega) hin hiol hnil hraw hpos hnostp
       out hw n k hn hk
       x' inner hp hps hkeys e2 he2' hsz2
   have hsize := (hstep ps (ParentSim.refl ps)).1
@@ -91,7 +91,7 @@ theorem chain_fix_layer (x : AnyObj) (os : List AnyObj) (ps : List LayerInfo) (r
 
 /-- **the induction over the stack**: `chain_reparse_aux_all` with the second serialization -/
 theorem chain_fix_aux_all (os : List AnyObj) : ∀ (x : AnyObj) (ps : List LayerInfo) (region : Bytes),
-    isRaw x = false → StackableAll (x :: os) → CovAll (x :: os) → (splitRaw (x :: os)).2 ≠ [] →
+    isRaw x = false → StackableAll (x :: os) → NoAppAll (x :: os) → (splitRaw (x :: os)).2 ≠ [] →
     region.length = Wire.sizeOf (semsAux ps (x :: os) (infos (x :: os))) →
     ∃ out, serializeInto (semsAux ps (x :: os) (infos (x :: os))) region = .ok out ∧ out.length = region.length ∧
       FirstNib x out ∧
@@ -141,7 +141,7 @@ theorem chain_fix_aux_all (os : List AnyObj) : ∀ (x : AnyObj) (ps : List Layer
         have hname := name_of_entry n x _ hn hok
         refine ⟨[x', .raw (p ++ List.replicate (cut x (x.trl (sizeOfStack [.raw p]) + k)) 0)],
           by simp [parseChain, hname.1, hp], ?_⟩
-        exact chain_fix_layer x [.raw p] ps region hok hcx.1 hcx.2 hpay hlen p hio (by rw [hsz]) (fun h => by cases h)
+        exact chain_fix_layer x [.raw p] ps region hok hcx hpay hlen p hio (by rw [hsz]) (fun h => by cases h)
           (fun q h => by cases h; rfl) (fun y r h => by cases h) (fun s r h => by cases h) out hser n k hn hk x' _ hp hv _
           (reFix_raw _ p _)
       | _ => cases ha
@@ -188,14 +188,15 @@ theorem chain_fix_aux_all (os : List AnyObj) : ∀ (x : AnyObj) (ps : List Layer
         (by rcases hpad' with h | h; exact .inl h; exact .inr ⟨by simp, h⟩) f (by rw [hiol, hil]; omega) with
         ⟨os'', hrec, hsub⟩
       refine ⟨_, L2.parseChain_cls f _ _ _ _ _ _ _ hname.1 hp hrec, ?_⟩
-      exact chain_fix_layer x (a :: r) ps region hok hcx.1 hcx.2 hpay hlen io hio (by rw [hiol, hil]) (fun h => by cases h)
+      exact chain_fix_layer x (a :: r) ps region hok hcx hpay hlen io hio (by rw [hiol, hil]) (fun h => by cases h)
         (fun q h => by cases h; cases ha) (fun _ _ _ => hiopos) hnostp out hser n k hn hk x' _ hp hv os'' hsub
 
-/-- **second-serialization fixed point, whole packets of the covered families, under any entry name**: for every
-    representable stack (`StackableAll`) of covered classes (`CovAll`) whose innermost payload is non-empty, parsing the
-    serialization `out` under an entry name of the outermost class and serializing the result gives `out` again. -/
+/-- **second-serialization fixed point, whole packets of all seven families, under any entry name**: for every
+    representable stack (`StackableAll`) without a Dot1Q that pads on behalf of `append_padding_` (`NoAppAll`) whose innermost
+    payload is non-empty, parsing the serialization `out` under an entry name of the outermost class and serializing the
+    result gives `out` again. -/
 theorem chain_fixpoint_named (n : String) (o : AnyObj) (os : List AnyObj) (hn : EntryName n o)
-    (hs : StackableAll (o :: os)) (hc : CovAll (o :: os)) (hpay : (splitRaw (o :: os)).2 ≠ [])
+    (hs : StackableAll (o :: os)) (hc : NoAppAll (o :: os)) (hpay : (splitRaw (o :: os)).2 ≠ [])
     (out : Bytes) (hser : serializeObjs (o :: os) = .ok out) :
     ∃ os', parseChain (out.length + 2) n out = .ok os' ∧ serializeObjs os' = .ok out := by
   cases ho : isRaw o with
@@ -306,19 +307,39 @@ theorem parse_noApp_all : ∀ (fuel : Nat) (cls : String) (b : Bytes) (os : List
     · have : modelled cls = false := by simpa using hm
       simp [this] at h
 
-/-- **Property C03, second clause, over the covered families, as stated**: if libtins accepts `b` as the stack `os`
-    (outside `ResidualAll`, classes covered so far: `FixCov`) and the innermost payload is non-empty, then with
-    `y = serialize(os)`: parsing `y` with the same entry point succeeds and serializing the result gives `y` again. -/
-theorem c03_fixpoint_cov (cls : String) (b : Bytes) (os : List AnyObj) (hb : b.length < 4294967296)
+/-- **Property C03, second clause, over ALL seven families, as stated** (`whole_packet_c03_fixpoint`): if libtins accepts `b`
+    as the stack `os` (outside `ResidualAll`, the hypotheses of `c03_all`) and the innermost payload is non-empty, then with
+    `y = serialize(os)`: parsing `y` with the same entry point succeeds, and serializing the re-parsed packet gives `y` again,
+    byte for byte — lengths, checksums, next-protocol tags, option / extension-header padding, the RadioTap FCS and the
+    minimum-frame padding of EthernetII included (after the first round trip the padding that reached the payload is payload;
+    where an IP / IPv6 / PPPoE / EAPOL length cut it off it is re-created). -/
+theorem c03_fixpoint_all (cls : String) (b : Bytes) (os : List AnyObj) (hb : b.length < 4294967296)
     (hparse : parseChain (b.length + 2) cls b = .ok os) (hres : ResidualAll os)
-    (_henv : ∀ o t, os = .ip o :: t → Ip.envDependentTop o = false)
-    (hcov : ∀ o ∈ os, FixCov o) (hpay : (splitRaw os).2 ≠ []) :
+    (_henv : ∀ o t, os = .ip o :: t → Ip.envDependentTop o = false) (hpay : (splitRaw os).2 ≠ []) :
     ∃ out, serializeObjs os = .ok out ∧
       ∃ os', parseChain (out.length + 2) cls out = .ok os' ∧ serializeObjs os' = .ok out := by
   rcases parse_stackable_all _ cls b os hb hparse hres with ⟨hst, h, t, rfl, hhd⟩
   rcases stackableAll_serializes _ hst with ⟨out, hser, _⟩
   have hna := parse_noApp_all _ cls b _ hparse
-  rcases chain_fixpoint_named cls h t hhd.1 hst (fun o ho => ⟨hcov o ho, hna o ho⟩) hpay out hser with ⟨os', hp, hs2⟩
+  rcases chain_fixpoint_named cls h t hhd.1 hst hna hpay out hser with ⟨os', hp, hs2⟩
   exact ⟨out, hser, os', hp, hs2⟩
+
+/-- … with the view clause of `c03_all` in one statement: the re-parse `os'` of `y = serialize(os)` has the same classes and
+    views as `os`, and (payload non-empty) serializes to `y` -/
+theorem c03_all_with_fixpoint (cls : String) (b : Bytes) (os : List AnyObj) (hb : b.length < 4294967296)
+    (hparse : parseChain (b.length + 2) cls b = .ok os) (hres : ResidualAll os)
+    (henv : ∀ o t, os = .ip o :: t → Ip.envDependentTop o = false) :
+    ∃ out, serializeObjs os = .ok out ∧
+      ∃ os', parseChain (out.length + 2) cls out = .ok os' ∧ ViewEqAll (padAll os) os os' ∧
+        ((splitRaw os).2 ≠ [] → serializeObjs os' = .ok out) := by
+  rcases c03_all cls b os hb hparse hres henv with ⟨out, hser, os', hp, hv⟩
+  refine ⟨out, hser, os', hp, hv, ?_⟩
+  intro hpay
+  rcases c03_fixpoint_all cls b os hb hparse hres henv hpay with ⟨out2, hser2, os2, hp2, hs2⟩
+  have := out_unique hser2 hser; subst this
+  have e : os2 = os' := by
+    have := hp2.symm.trans hp
+    injection this
+  rw [← e]; exact hs2
 
 end Tins.Wire.ChainAll
